@@ -19,6 +19,7 @@ reg("T5", termination.rule_T5, 12)
 for _i, _f in enumerate(("S1", "S2", "S3", "S4", "S5", "S6", "S7", "S8", "S9"), 1):
     reg(_f, getattr(streams, "rule_" + _f), 2)
 reg("S4p", streams.rule_S4p, 2)
+reg("S10", streams.rule_S10, 2)
 
 for _f in ("D1", "D2", "D3", "D4", "D1a", "D1r", "D3a", "D3r"):
     reg(_f, getattr(decoders, "rule_" + _f), 1)
@@ -54,7 +55,7 @@ for _f, _n in (("B1", 25), ("B1d", 15), ("B2", 20), ("B3", 5)):
 for _f, _n in (("Q1", 20), ("Q2", 12), ("Q3", 4), ("Q4", 2), ("Q5", 1), ("C1", 15), ("C2", 5)):
     reg(_f, getattr(cue, "rule_" + _f), _n)
 
-for _f, _n in (("I1", 10), ("I2", 6), ("I3", 3), ("I4", 5), ("I5", 6), ("I6", 60), ("I7", 1), ("I8", 1), ("I9", 1), ("I10", 1), ("I11", 4), ("I12", 6), ("I13", 1), ("O1", 6), ("R1", 1)):
+for _f, _n in (("I1", 10), ("I2", 6), ("I3", 3), ("I4", 5), ("I5", 6), ("I6", 60), ("I7", 1), ("I8", 1), ("I9", 1), ("I10", 1), ("I11", 4), ("I12", 6), ("I13", 1), ("I14", 1), ("O1", 6), ("R1", 1)):
     reg(_f, getattr(isolation, "rule_" + _f), _n)
 
 for _f, _n in (("F1", 3), ("F2", 3), ("F3", 3), ("F4", 2), ("F5", 10), ("F6", 15)):
@@ -116,7 +117,7 @@ PROPS = {
               "pair ends that sample's data instead of aborting the export of the remaining samples (S9). An unreadable sibling entry adds nothing and displaces nothing in the volume list (I1)."
               "" + NOT +
               "which name multisets collide after renaming; unequal-length pairs."),
-    "C06": _p(["N1", "N2", "N3", "N4", "N5", "N7", "N9", "P1", "P8", "T1"],
+    "C06": _p(["N1", "N2", "N3", "N4", "N5", "N7", "N9", "P1", "P8", "T1", "I14"],
               "Decides confinement and character clauses: every directory class runs the naming routines on the children it hands out (N1) and receives them from its parent (N2); "
               "abstract string domain over the regex ASTs proves export names non-empty, alphabet within {word, space, - . #} (+ parentheses from counters), first character a word "
               "character, no trailing blank, directories not ending in '.' (N4); paths are built from export names only, joined under the destination, single write site (N5); "
@@ -129,13 +130,13 @@ PROPS = {
               "/ directory-run ends (D3), with the documented constants (D2); the Roland cluster stream the chains are read from has the recorded offset / size "
               "terms (L1r); a read spanning several sectors of the list takes them in list order, each exactly once (S4p); the table a file is "
               "resolved in is the one of its own partition - shared construct objects keep no table from an earlier parse (I6)." + NOT + "the exhaustive table x start enumeration; the AKAI reserved-run rule beyond D1/D3. Known finding G7."),
-    "C08": _p(["S5", "S7", "S3", "S4", "S6", "L2", "D4"],
+    "C08": _p(["S5", "S7", "S3", "S4", "S6", "L2", "D4", "S10"],
               "Obligations on the 2 base methods and 9 override methods implementing every view kind: read amount = min(end-position, size) (0 if negative), position advances by exactly "
               "that amount, seek = clamp(base(whence)+offset, 0, end), no subclass overrides read/seek/tell/readall (S5); window and reversed translations incl. alignment errors and the "
               "reshape/flip idiom (S7); address maps as affine terms on every path (S3); split accounting, first/middle/last piece indices, zero-size guard, length check (S4); re-sync "
               "before every underlying read (S6); container windows: MDX offset = sizeof(header), size = eof - offset; MDF geometry (L2). A chained file view is always built over get_path's list, in chain order (D4)."
               "" + NOT + "equality with a reference model over operation histories; empty views; short reads of the underlying file."),
-    "C09": _p(["C1", "C2", "S8", "S3", "S4p", "L1c", "L2", "Q3", "Q2", "Q1", "S5"],
+    "C09": _p(["C1", "C2", "S8", "S3", "S4p", "L1c", "L2", "Q3", "Q2", "Q1", "S5", "S10"],
               "Decides: detection cascade order and the stream each probe/parser receives (C1); data-track existential and CDDA branch (C2); every probe restores the borrowed stream's "
               "position on every normal exit (S8); MDF geometry 2352 = 16+2048+288, size = (n // 2352) * 2048 (S3); MDX window offset = sizeof(header), size = eof - offset; container "
               "header layouts (L1c, L2); ASCII probe and fallbacks (Q3); the 2048-byte user-data view reads through the same multi-sector split as every "
@@ -178,7 +179,7 @@ PROPS = {
               "loop on the first unparsable header (T1-STREAM-PARSE exits); length prefixes wrap the streamed data (L1w); unreadable files are skipped without stopping the remaining ones "
               "(I1); whole-frame blocks (P5); the last CDDA track runs to the end of the file as it is (L8c). The AKAI file table and the volume body are read through the sector stream inside the handlers that turn a failed read into a skipped entry (I10)."
               "" + NOT + "prefix equality; which files are reported for which cut."),
-    "C16": _p(["I2", "I3", "R1", "N2", "N7", "S6", "S8", "N5", "N4", "L8r", "I6", "I7", "I8", "I9", "I12"],
+    "C16": _p(["I2", "I3", "R1", "N2", "N7", "S6", "S8", "N5", "N4", "L8r", "I6", "I7", "I8", "I9", "I12", "I14"],
               "Decides: accumulating / position-dependent realisers run once under a flag they always set (I2); no write-capable call outside the export path, inputs opened read-only "
               "(I3, N5); data streams are rewound before every export (R1); both actions install both naming routines before traversing, so what an operation sees does not depend on which "
               "ran first (N2); names recomputed from raw names (N7); no read depends on where an earlier operation left the shared cursor (S6, S8); name sanitising is a function of (raw name, "
